@@ -117,17 +117,20 @@ type Model struct {
 	// for key K has RETURNED and no UNBIND for K was ever started, every BOUND call
 	// for K placed while all channels are READY (no balancer callback overlapping)
 	// goes to one and the same channel.
-	cBound      map[string]bool
-	cDropped    map[string]bool
-	cHome       map[string]int
-	coreSeq     int
-	degraded    bool
-	cBinds      map[string]int
-	bindDones   int     // BIND completion callbacks currently running
-	bindOverlap bool    // ... and whether another one overlapped the running ones
-	readingOut  [2]bool // C07: readings of "last response" contradicted so far in this run
-	aggKnown    bool
-	pds         map[int]*donePending
+	cBound   map[string]bool
+	cDropped map[string]bool
+	cHome    map[string]int
+	coreSeq  int
+	degraded bool
+	cBinds   map[string]int
+	// event sequence numbers: start of the last successful UNBIND completion /
+	// end of the last BIND completion that named the key
+	cUnbindInv, cBindRet map[string]int
+	bindDones            int     // BIND completion callbacks currently running
+	bindOverlap          bool    // ... and whether another one overlapped the running ones
+	readingOut           [2]bool // C07: readings of "last response" contradicted so far in this run
+	aggKnown             bool
+	pds                  map[int]*donePending
 	// Coverage probes.
 	Probes map[string]int
 	hash   uint64
@@ -211,10 +214,13 @@ func NewModel(s *Sim) *Model {
 
 //go:norace
 func (m *Model) v(prop, rule, facts, msg string, op int) {
-	if m.track && !(m.degraded && prop == "C04" && (rule == "missing-publication" || rule == "published-state-mismatch" || rule == "inert-report-had-effect")) {
+	if m.track && !(m.degraded && (prop == "C04" && (rule == "missing-publication" || rule == "published-state-mismatch" || rule == "inert-report-had-effect") ||
+		prop == "C20" && (rule == "replacement-stale-addrs" || rule == "new-conn-stale-addrs"))) {
 		// degraded serial runs (a live connection was shut down under the pool):
 		// C04 quantifies over "shutdowns in any order", its callback-level clauses
-		// stay judged; nothing else does
+		// stay judged; so do C20's address clauses (a connection that joins the pool
+		// holds the latest resolved list, whatever happened to the one it replaces);
+		// nothing else does
 		return
 	}
 	sig := prop + "|" + rule
@@ -259,11 +265,28 @@ func (m *Model) allReady() bool {
 	return true
 }
 
+// KnownUnbound returns the burst keys that are certainly unbound now: a
+// successful UNBIND completion for the key began after every BIND completion
+// that named it had returned (and every call has completed since).
+//
+//go:norace
+func (m *Model) KnownUnbound() []string {
+	var out []string
+	for k, ui := range m.cUnbindInv {
+		if br, ok := m.cBindRet[k]; k != "" && ok && ui > br {
+			out = append(out, k)
+		}
+	}
+	sort.Strings(out)
+	return out
+}
+
 // trackKeyedInvoke: bookkeeping of the concurrent-burst affinity oracle at the
 // invocation of a pick.
 func (m *Model) trackKeyedInvoke(c *Call, cm *callM) {
 	if m.cBound == nil {
 		m.cBound, m.cDropped, m.cHome, m.cBinds = map[string]bool{}, map[string]bool{}, map[string]int{}, map[string]int{}
+		m.cUnbindInv, m.cBindRet = map[string]int{}, map[string]int{}
 	}
 	if c.NoGCP || m.cfg.ambiguous[c.MethodName] {
 		return // no key visible to the picker
@@ -558,6 +581,9 @@ func (m *Model) newSC(ev Event) {
 			m.maxPool = n
 			if n == 33 {
 				m.probe("pool_reached_33_channels")
+			}
+			if n == 257 {
+				m.probe("pool_reached_257_channels")
 			}
 		}
 		if m.cfg.min <= m.cfg.max && m.poolSize() > m.cfg.max {
@@ -1320,6 +1346,7 @@ func (m *Model) doneReturn(ev Event) {
 							// completion overlapping it, decides the key's channel: the
 							// later BOUND calls are held to THAT channel, not merely to
 							// one and the same channel.
+							m.cBindRet[k] = ev.Seq
 							m.cBinds[k]++
 							if _, had := m.cHome[k]; m.cBinds[k] == 1 && !had && m.bindDones == 1 && !m.bindOverlap {
 								m.cHome[k] = cm.ch
@@ -1337,6 +1364,9 @@ func (m *Model) doneReturn(ev Event) {
 				}
 			case cmdUnbind:
 				keys, err := modelKeys(mm.locator, c.ReqKeys, c.NilMsg)
+				if err == nil && len(keys) > 0 && m.track && m.cUnbindInv != nil {
+					m.cUnbindInv[keys[0]] = pd.fromSeq
+				}
 				if err == nil && len(keys) > 0 {
 					if h, ok := m.keys[keys[0]]; ok {
 						delete(m.keys, keys[0])
